@@ -81,7 +81,8 @@ package dcs
 //@   ensures C03.lock_no_delete [C03]: e_zkDelete == old(e_zkDelete) && e_zkSet == old(e_zkSet) && e_zkCreate <= old(e_zkCreate) + 1
 
 //@ func (*dcs.zkDCS).ReleaseLock
-//@   assert_at retryDelete#1 C03.release_own_only [C03]: owner == resultof("getSelfLockOwner", 1) && callarg0 == fullPath && callarg1 == stat.Version && resultof("json.Unmarshal", 1) == nil && reached("Delete", 1)
+//@   assert_at retryDelete#* C03.release_own_only [C03]: owner == resultof("getSelfLockOwner", 1) && callarg0 == fullPath && callarg1 == stat.Version && resultof("json.Unmarshal", 1) == nil
+//@   ensures C03.release_clears_cache [C03]: reached("Delete", 1)
 //@   ensures C03.release_frame [C03]: e_zkCreate == old(e_zkCreate) && e_zkSet == old(e_zkSet) && e_zkDelete <= old(e_zkDelete) + 1
 
 //@ func (*dcs.zkDCS).handleSessionEvent
